@@ -5,6 +5,7 @@ parameters from PARAMS, reports its verdict through `verdict(ok, nontrivial)`, a
 leave diagnostic detail in DETAIL for the replay report.
 """
 import os
+DEBUG = bool(os.environ.get("VERIF_DEBUG"))
 
 PARAMS = {}          # concrete parameters of the obligation being analysed
 MODE = "check"       # "check" | "twin"  (twin: postcondition says the interesting observation never happens)
